@@ -39,6 +39,9 @@ CONTEXTS = [
     ("agg", "h{I}(N) :- N = #sum {{ 1,X,Y : {SC}{EC} }}."),
     ("aggw", "h{I} :- 2 <= #sum {{ Y,X : {SC}{EC} }}."),
     ("aggglob", "h{I}(X) :- e(X); 1 <= #sum {{ 1,Y : {SC}{EC} }}."),
+    ("nagg", "h{I} :- e(X); not 1 <= #sum {{ 1,Y : {SC}{EC} }}."),
+    ("nnagg", "h{I}(X) :- e(X); not not 1 <= #sum {{ 1,Y : {SC}{EC} }}."),
+    ("ncond", "h{I} :- e(X); not g(Y) : {SC}{EC}."),
     ("weak", ":~ {S}{E}. [1@1,X]"),
     ("weakXY", ":~ {S}{E}. [Y@1,X,{I}]"),
     ("constraint", ":- {S}{E}; e(X)."),
